@@ -11,6 +11,7 @@
   Trusted: that these mirrors say what the generated *.pb.go files do.
 -/
 import AuthModel.GoLib
+import AuthModel.Resp
 namespace AuthModel.Pb
 open AuthModel AuthModel.Go
 
@@ -188,5 +189,95 @@ structure OidcHandler where
   deriving Repr, BEq, DecidableEq
 def OidcHandler.config! (o : OidcHandler) : M OIDCConfig := if o.isNil then nilPanic else pure o.config
 
+
+/-! ### rpc Status, envoy CheckResponse (the HTTP part is the model's `HttpResp`), mock config, filter, chain, config,
+    the filter object and the handler interface -/
+
+structure Status where
+  isNil : Bool := false
+  Code : Int := 0
+  Message : Str := []
+  deriving Repr, BEq, DecidableEq
+def Status.Code! (s : Status) : M Int := if s.isNil then nilPanic else pure s.Code
+def Status.GetCode (s : Status) : Int := if s.isNil then 0 else s.Code
+
+structure CheckResponse where
+  isNil : Bool := false
+  Status : Pb.Status := { isNil := true }
+  http : HttpResp := .none
+  deriving Repr, BEq, DecidableEq
+def CheckResponse.Status! (r : CheckResponse) : M Pb.Status := if r.isNil then nilPanic else pure r.Status
+def CheckResponse.GetStatus (r : CheckResponse) : Pb.Status := if r.isNil then { isNil := true } else r.Status
+/-- `&envoy.CheckResponse{}` -/
+def CheckResponse.new : CheckResponse := {}
+
+structure MockConfig where
+  isNil : Bool := false
+  Allow : Bool := false
+  deriving Repr, BEq, DecidableEq
+def MockConfig.GetAllow (m : MockConfig) : Bool := if m.isNil then false else m.Allow
+
+structure Filter_Mock where
+  Mock : MockConfig
+  deriving Repr, BEq, DecidableEq
+structure Filter_Oidc where
+  Oidc : OIDCConfig
+  deriving Repr, BEq, DecidableEq
+def Filter_Mock.Mock! (f : Filter_Mock) : M MockConfig := pure f.Mock
+def Filter_Oidc.Oidc! (f : Filter_Oidc) : M OIDCConfig := pure f.Oidc
+
+/-- the oneof `type` of a filter; `Other` stands for the arms `Check` does not know (oidc_override after loading: none) -/
+inductive Filter_Type where
+  | nil
+  | Mock (v : Filter_Mock)
+  | Oidc (v : Filter_Oidc)
+  | Other
+  deriving Repr, BEq, DecidableEq
+
+structure Filter where
+  isNil : Bool := false
+  Type_ : Filter_Type := .nil
+  deriving Repr, BEq, DecidableEq
+def Filter.Type_! (f : Filter) : M Filter_Type := if f.isNil then nilPanic else pure f.Type_
+
+structure FilterChain where
+  isNil : Bool := false
+  Name : Str := []
+  Match : Pb.Match := { isNil := true }
+  Filters : List Filter := []
+  deriving Repr, BEq, DecidableEq
+def FilterChain.Name! (c : FilterChain) : M Str := if c.isNil then nilPanic else pure c.Name
+def FilterChain.Match! (c : FilterChain) : M Pb.Match := if c.isNil then nilPanic else pure c.Match
+def FilterChain.Filters! (c : FilterChain) : M (List Filter) := if c.isNil then nilPanic else pure c.Filters
+
+structure Config where
+  isNil : Bool := false
+  TriggerRules : List TriggerRule := []
+  Chains : List FilterChain := []
+  AllowUnmatchedRequests : Bool := false
+  deriving Repr, BEq, DecidableEq
+def Config.TriggerRules! (c : Config) : M (List TriggerRule) := if c.isNil then nilPanic else pure c.TriggerRules
+def Config.Chains! (c : Config) : M (List FilterChain) := if c.isNil then nilPanic else pure c.Chains
+def Config.AllowUnmatchedRequests! (c : Config) : M Bool := if c.isNil then nilPanic else pure c.AllowUnmatchedRequests
+
+structure ExtAuthZFilter where
+  isNil : Bool := false
+  cfg : Config := {}
+  deriving Repr, BEq, DecidableEq
+def ExtAuthZFilter.cfg! (e : ExtAuthZFilter) : M Config := if e.isNil then nilPanic else pure e.cfg
+
+/-- a value of the interface type `authz.Handler`: nil, or an object whose `Process` leaves a response behind (the
+    Go method mutates `*resp` in place and returns an error; here it returns the new response) -/
+structure Handler where
+  isNil : Bool := true
+  process : CheckRequest → CheckResponse → CheckResponse × Go.Error := fun _ r => (r, {})
+/-- `h.Process(ctx, req, resp)`: a call through a nil interface value panics -/
+def Handler.Process! (h : Handler) (req : CheckRequest) (resp : CheckResponse) : M (CheckResponse × Go.Error) :=
+  if h.isNil then nilPanic else pure (h.process req resp)
+
+/-- how handlers are made: `authz.NewMockHandler`, `authz.NewOIDCHandler` (which may fail) -/
+structure Handlers where
+  newMock : MockConfig → Handler
+  newOIDC : OIDCConfig → Handler × Go.Error
 
 end AuthModel.Pb
